@@ -540,7 +540,44 @@ def _returns(ctx: Ctx, fom: ClassInfo) -> None:
     env.vars["self"] = Poly.var("self")
     gw.walk(env, func_body(ev))
     rets = [e for e in gw.exits if e.kind == "return"]
-    ctx.floor("evaluate_returns", len(rets), 2)
+    # a training case outside [0, 1e100] ends the evaluation at once: the
+    # results buffer is a field that keeps the values of earlier calls, so
+    # leaving the case loop by `break` would aggregate stale entries
+    loop = next((s_ for s_ in func_body(ev) if isinstance(
+        s_, (ast.For, ast.While))), None)
+    brk_def: list[ast.AST] = []
+    brk_flag: list[ast.AST] = []
+    if loop is not None:
+        def scan(stmts: list[ast.stmt], depth: int) -> None:
+            for k_, st_ in enumerate(stmts):
+                if isinstance(st_, ast.Break) and depth == 0:
+                    flagged = any(isinstance(p_, (ast.Assign, ast.AnnAssign))
+                                  and isinstance(getattr(p_, "value", None),
+                                                 ast.Constant)
+                                  for p_ in stmts[:k_])
+                    (brk_flag if flagged else brk_def).append(st_)
+                elif isinstance(st_, ast.If):
+                    scan(st_.body, depth)
+                    scan(st_.orelse, depth)
+                elif isinstance(st_, (ast.For, ast.While)):
+                    scan(st_.body, depth + 1)
+                elif isinstance(st_, (ast.With, ast.Try)):
+                    scan(st_.body, depth)
+        scan(loop.body, 0)
+    ctx.ob("D11.4", ev, (brk_def + brk_flag + [ev.node])[0],
+           not brk_def and not brk_flag,
+           "the loop over the training cases is only left by `return` or "
+           "after the last case" if not brk_def and not brk_flag else (
+               "the loop over the training cases is left by `break`: the "
+               "aggregate is then computed over the results buffer, whose "
+               "later entries are left over from earlier evaluations - the "
+               "failure value 1e200 is not returned for a failed case"
+               if brk_def else "the loop over the training cases is left "
+               "by `break` under a flag; how the flag leads to the failure "
+               "value is not recognised"),
+           construct="failed case ends the evaluation", nontrivial=False)
+    if not brk_def:
+        ctx.floor("evaluate_returns", len(rets), 2)
     big = Poly.const(10) .pow(100)
     for e in rets:
         v = e.node.value
